@@ -44,12 +44,19 @@ CRATES["m2"] = {
     }],
 }
 
+LOSSY13 = "String::from_utf8_lossy -> the same bytes as &str without validation (the library calls it only to put magic bytes into error messages)"
 # iteration aid: C13_NO_WITNESS=1 leaves the witness harnesses out (they are replayed natively until listed in known-findings.json)
 import os as _os13
 _H13_orig = H
 def H(*a, **kw):
     if _os13.environ.get("C13_NO_WITNESS") and str(kw.get("expect", "")).startswith("witness:"):
         return
+    # every harness of header.rs / skin.rs / anim.rs / model.rs carries the from_utf8_lossy stub
+    if a[2] in ("verif_kani_header", "verif_kani_skin", "verif_kani_anim", "verif_kani_model"):
+        st = list(kw.get("stubs", []))
+        if LOSSY13 not in st:
+            st.append(LOSSY13)
+        kw["stubs"] = st
     _H13_orig(*a, **kw)
 
 _CONSTS = ("size constants extracted by the runner from the copied model.rs/skin.rs/anim.rs (regex anchors; a missing anchor is exit 2)")
@@ -120,10 +127,10 @@ H("C13", "m2", _RC, "quick", "C13.b bone record: size == the 108/112/88 the writ
            "pivot has no NaN component (documented repair zeroes NaN pivots)", _CONSTS], stubs=[FMT])
 H("C13", "m2", _RC, "thorough", "C13.b bone record, versions 263 and 272", ["c13b_bone_v263", "c13b_bone_v272"],
   ["chunks::bone::M2Bone::{parse,write}", "chunks::m2_track::M2Track::{parse,write}"], "as above", "one record", assumes=["as above"], stubs=[FMT], timeout=2400)
-H("C13", "m2", _RC, "quick", "C13.b static bone (what the writer emits without preserved key frames): size per version, fields kept",
+H("C13", "m2", _RC, "thorough", "C13.b static bone (what the writer emits without preserved key frames): size per version, fields kept",
   ["c13b_bone_static_all_versions"], ["chunks::bone::M2Bone::{new,write,parse}"],
   "bone id, parent, submesh id, name CRC, pivot.x symbolic; versions 256, 260, 263, 264, 272", "one bone x 5 versions",
-  assumes=["pivot not NaN"], stubs=[FMT])
+  assumes=["pivot not NaN"], stubs=[FMT], timeout=2400)
 H("C13", "m2", _RC, "quick", "C13.b vertex / texture definition / material records: sizes == 48/16/4 the writer adds, write(parse(b)) == b",
   ["c13b_vertex", "c13b_texture_def", "c13b_material"],
   ["chunks::vertex::M2Vertex::{parse_with_validation,write}", "chunks::texture::M2Texture::{parse,write}", "common::M2ArrayString::{parse,write}",
@@ -188,13 +195,13 @@ H("C13", "m2", _AN, "quick", "C13.d anim records: header 20, entry 12, section h
   ["c13d_anim_header_record", "c13d_anim_entry_record", "c13d_anim_section_header_record"],
   ["anim::AnimHeader::{parse,write}", "anim::AnimEntry::{parse,write}", "anim::AnimSectionHeader::{parse,write}"],
   "record bytes symbolic behind the assigned magic", "one record", assumes=[_CONSTS], stubs=[FMT])
-H("C13", "m2", _AN, "quick", "C13.d section with one bone, one key per track: write->parse content equal, offset table points at the bone, second write identical",
+H("C13", "m2", _AN, "thorough", "C13.d section with one bone, one key per track: write->parse content equal, offset table points at the bone, second write identical",
   ["c13d_anim_section_roundtrip"], ["anim::AnimSection::{write,parse}", "common::C3Vector::{parse,write}", "common::Quaternion::{parse,write}"],
-  "bone id, section header, time stamps, 10 floats symbolic", "1 bone, 1 key per track; parse is given size = 16 + 4 * bones", stubs=[FMT])
-H("C13", "m2", _AN, "quick", "C13.d modern anim file, one section, one bone without keys: entry table vs section position/length, write->parse content",
+  "bone id, section header, time stamps, 10 floats symbolic", "1 bone, 1 key per track; parse is given size = 16 + 4 * bones", stubs=[FMT, LOSSY13], timeout=2400)
+H("C13", "m2", _AN, "thorough", "C13.d modern anim file, one section, one bone without keys: entry table vs section position/length, write->parse content",
   ["c13d_anim_file_roundtrip_empty_bone"], ["anim::AnimFile::{write,parse}", "anim::AnimParser::parse_modern", "anim::AnimFormatDetector::detect_format", "anim::AnimSection::{write,parse}"],
   "section header, header version/unknown/stale offsets symbolic", "1 section, 1 bone, no key frames",
-  assumes=["bones carry no key frames (known finding KF-C13-anim-section-size)"], stubs=[FMT])
+  assumes=["bones carry no key frames (known finding KF-C13-anim-section-size)"], stubs=[FMT, LOSSY13], timeout=2400)
 H("C13", "m2", _AN, "quick", "C13.d witness: modern anim file with one translation key", ["c13d_anim_file_bone_data_witness"],
   ["anim::AnimFile::{write,parse}"], "concrete", "one input", stubs=[FMT], expect="witness:KF-C13-anim-section-size")
 H("C13", "m2", _AN, "quick", "C13.d witness: legacy-format anim file loses its section header", ["c13d_anim_legacy_witness"],
@@ -205,21 +212,45 @@ H("C13", "m2", _AN, "quick", "canary", ["c13d_anim_canary"], ["anim::AnimEntry::
 _MD = "verif_kani_model"
 _mdl = ["model::M2Model::write", "model::M2Model::calculate_header_size", "header::M2Header::{new,write,parse}"]
 H("C13", "m2", _MD, "quick", "C13.e empty model: bytes written == calculate_header_size() == bytes the header parser consumes; version, flags, bounding volume kept",
-  ["c13e_model_empty_vanilla", "c13e_model_empty_tbc", "c13e_model_empty_wotlk", "c13e_model_empty_cataclysm"], _mdl,
+  ["c13e_model_empty_tbc", "c13e_model_empty_wotlk"], _mdl,
   "5 header floats symbolic; flags = all bits except the two layout bits; version per harness", "model without any section",
-  assumes=["flag bits 0x8 and 0x8000000 clear (known finding KF-C13-model-layout-flags)"], stubs=[FMT])
+  assumes=["flag bits 0x8 and 0x8000000 clear (known finding KF-C13-model-layout-flags)"], stubs=[FMT, LOSSY13])
+H("C13", "m2", _MD, "thorough", "C13.e empty model, Vanilla and Cataclysm", ["c13e_model_empty_vanilla", "c13e_model_empty_cataclysm"], _mdl,
+  "as above", "model without any section", assumes=["flag bits 0x8 and 0x8000000 clear"], stubs=[FMT, LOSSY13], timeout=2400)
 H("C13", "m2", _MD, "quick", "C13.e witness: empty WotLK model with USE_TEXTURE_COMBINERS; empty model with a Legion version number",
   ["c13e_model_layout_flags_witness"], _mdl, "concrete", "one input", stubs=[FMT], expect="witness:KF-C13-model-layout-flags")
 H("C13", "m2", _MD, "quick", "C13.e witness: empty model with a Legion version number (texture_transforms dropped by the writer)",
   ["c13e_model_legion_witness"], _mdl, "concrete", "one input", stubs=[FMT], expect="witness:KF-C13-model-legion-transforms")
-H("C13", "m2", _MD, "thorough", "C13.e small model: every (count, offset) in the written header points at its section; section contents kept",
-  ["c13e_model_small_wotlk", "c13e_model_small_vanilla", "c13e_model_small_tbc", "c13e_model_small_cataclysm"],
-  _mdl + ["chunks::vertex::M2Vertex::write", "chunks::material::M2Material::write"],
-  "2-byte ASCII name, 2 global sequences, 1 animation lookup, 1 key bone lookup, 1 vertex, 1 material, 1 texture lookup: all contents symbolic",
-  "that shape; version per harness", stubs=[FMT], timeout=2400)
+_small = ("2-byte ASCII name, 2 global sequences, 1 animation lookup, 1 key bone lookup, 1 vertex, 1 material, 1 texture lookup: all contents symbolic")
+H("C13", "m2", _MD, "quick", "C13.e small model: every (count, offset) in the written header points at its section; section contents kept; file length == header + sections",
+  ["c13e_model_small_wotlk"], _mdl + ["chunks::vertex::M2Vertex::write", "chunks::material::M2Material::write"], _small, "that shape; WotLK", stubs=[FMT, LOSSY13])
+H("C13", "m2", _MD, "thorough", "C13.e small model, Vanilla / TBC / Cataclysm",
+  ["c13e_model_small_vanilla", "c13e_model_small_tbc", "c13e_model_small_cataclysm"],
+  _mdl + ["chunks::vertex::M2Vertex::write", "chunks::material::M2Material::write"], _small, "that shape; version per harness", stubs=[FMT, LOSSY13], timeout=2400)
+H("C13", "m2", _MD, "thorough", "C13.e model with one element per section (sequence, static bone, 6 lookup tables, bounding triangles/vertices/normals, event): offsets, order, contents, file length",
+  ["c13e_model_sections_wotlk", "c13e_model_sections_tbc", "c13e_model_sections_vanilla"],
+  _mdl + ["chunks::animation::M2Animation::write", "chunks::bone::M2Bone::write", "chunks::event::M2Event::write"],
+  "ids, flags, lookup values, 30 bounding bytes, event data symbolic", "one element per listed section; version per harness", stubs=[FMT, LOSSY13], timeout=2400)
 H("C13", "m2", _MD, "quick", "C13.e witness: model with one texture that has a file name", ["c13e_model_texture_filename_witness"],
   _mdl, "concrete", "one input", stubs=[FMT], expect="witness:KF-C13-model-texture-filename")
 H("C13", "m2", _MD, "quick", "canary", ["c13e_model_canary"], ["model::M2Model::calculate_header_size"], "vacuity twin", "-", expect="canary", stubs=[FMT])
 
-OUTSIDE["C13"] = []
+OUTSIDE["C13"] = [
+    "M2Model::parse as a whole, hence parse(write(model)) == model at model level: M2Model::write is decided against M2Header::parse, the record parsers "
+    "and direct reads at the offsets of the written header, for models with at most one element per section",
+    "model sections that own a Vec per record (textures, attachments, cameras, lights: CBMC out of memory at model level; decided at record level only), "
+    "particle / ribbon emitters, texture / colour / transparency animations, colour replacements",
+    "preserved key-frame data (raw_data.*_animation_data and its HashMap offset relocation), embedded skins at model level (only their element-size constants)",
+    "textures with a file name at model level (the writer fails on them: KF-C13-model-texture-filename)",
+    "chunked (MD21) files and Legion+ file-id chunks",
+    "version conversion of whole models (M2Model::convert, M2Converter paths): decided for the header and for sequences; bone / vertex / texture / material "
+    "convert are clones",
+    "header: version numbers other than 256, 260, 263, 264, 272, 274, 276 (incl. the legacy numbers 8..19); flag words other than the named layout bits "
+    "combined with the other 30 bits all clear or all set",
+    "skins beyond the shape 2 indices / 3 triangle indices / 1 vertex / at most 1 submesh or 1 batch; Skin::convert, to_old_format, to_new_format; "
+    "bone index arrays whose length is not a multiple of 4",
+    "anim: more than one section, bone or key per track; AnimFile::convert; the legacy layout (placeholder parser: KF-C13-anim-legacy-placeholder)",
+    "names longer than 2 bytes or non-ASCII; floats are compared bitwise (NaN payloads included) except for the documented NaN-pivot repair",
+    "allocation behaviour on untrusted counts (read_array pre-allocates count * size): C05 territory",
+]
 H = _H13_orig
